@@ -1004,3 +1004,21 @@ Qed.
 Lemma opt82_roundtrip_nonvacuous :
   build_opt82 [101; 116; 104; 49] [109; 97; 99] (Some 1) = [82; 14; 1; 4; 101; 116; 104; 49; 2; 3; 109; 97; 99; 10; 1; 1].
 Proof. vm_compute. reflexivity. Qed.
+
+(* ------------------------------------------------------------------ *)
+(* the fuel hypotheses are met by, and are close to what is needed for, real inputs *)
+Definition ex_chain2 : bytes := wrap_all [ex_rf2; ex_rf1] [1; 10; 11; 12; 0; 1; 0; 2; 170; 187].
+Lemma fuel_nonvacuous :
+  (* DHCPv4 pad options: 7 bytes need fuel 7 = length; the theorem asks for length < fuel, i.e. 8 *)
+  (length (repeat 0 7) < 8)%nat /\ o4_loop 7 (repeat 0 7) o4_0 = Ok o4_0 /\ o4_loop 6 (repeat 0 7) o4_0 = OutOfFuel /\
+  (* PPP options of length 2: one iteration per two bytes, plus the final test *)
+  ppp_opts_loop 4 [1; 2; 1; 2; 1; 2] = Ok [(1, []); (1, []); (1, [])] /\ ppp_opts_loop 3 [1; 2; 1; 2; 1; 2] = OutOfFuel /\
+  (* the hypothesis of C07_dhcp6_relay_nesting_shrinks: the walk finds the inner message of a two-level relay chain *)
+  (exists inner, find_relay_msg 2 34 ex_chain2 = Ok (Some inner) /\ lenN inner = 66 /\ lenN ex_chain2 = 109 /\ 4 <= 34) /\
+  find_relay_msg 1 34 ex_chain2 = OutOfFuel /\
+  (* recursion depth: two levels need fuel 2 *)
+  unwrap_relay 1 ex_chain2 = OutOfFuel /\ is_crash (unwrap_relay 2 ex_chain2) = false /\ (length ex_chain2 < 110)%nat.
+Proof.
+  repeat split; try (vm_compute; reflexivity); try (vm_compute; lia).
+  eexists. repeat split; try (vm_compute; reflexivity). vm_compute. discriminate.
+Qed.
